@@ -16,7 +16,10 @@ from sympy.physics.quantum.boson import BosonOp
 from sympy.physics.quantum.fermion import FermionOp
 
 from .. import fock, symc
+from fractions import Fraction
+
 from ..engine import Rec
+from ..symc import SymC
 
 
 def alphabet(name):
@@ -38,6 +41,8 @@ def alphabet(name):
         "ladder": ([l], [l, Dagger(l), Nl, Nl + 1]),
         "mixed": ([a, l, s, c, d], [a, Dagger(a), l, Dagger(l), s, pauli.SigmaPlus("s"), c, Dagger(c), d, Dagger(d), Na]),
         "bf": ([a, c], [a, Dagger(a), Na, c, Dagger(c), Nc]),
+        "babs": ([a], [a, Dagger(a), sympy.Abs(Na - 2), sympy.Abs(2 * Na - 3)]),
+        "bpow": ([a, c], [a, Dagger(a), (-1) ** Na, 2 ** Na, c, Dagger(c), (-1) ** Nc * 3 ** Na]),
         "b1r": ([a], [a, Dagger(a), Na, (Na + 1) ** -1, (Na + 2) ** -1 * Na]),
         "s2": ([s, pauli.SigmaMinus("t")], [s, pauli.SigmaPlus("s"), pauli.SigmaZ("s"), pauli.SigmaMinus("t"), pauli.SigmaPlus("t"), pauli.SigmaX("t")]),
         "l2": ([l, LadderOp("m")], [l, Dagger(l), Nl, LadderOp("m"), Dagger(LadderOp("m")), NumberOperator(LadderOp("m"))]),
@@ -57,9 +62,17 @@ def _word_expr(letters):
 class Denoter:
     """Action on the symbolic Fock state for every binary case; cached per expression."""
 
-    def __init__(self, modes):
+    def __init__(self, modes, boundary=(), symbolic=True):
+        """boundary: concrete occupations at which every boson mode is evaluated IN ADDITION to the symbolic occupation
+        (needed when coefficients are rational functions of N: an identity of rational functions says nothing about the
+        occupations where a pole of a shifted coefficient meets the zero of a falling factorial, e.g. the vacuum)."""
         self.modes = modes
-        self.cases = [fock.Fock(modes, binary=b) for b in fock.binary_cases(modes)]
+        self.cases = [fock.Fock(modes, binary=b) for b in fock.binary_cases(modes)] if symbolic else []
+        self.n_symbolic = len(self.cases)
+        bos = [k for k, m in enumerate(modes) if fock.kind_of(m) == "boson"]
+        for occ in boundary:
+            for b in fock.binary_cases(modes):
+                self.cases.append(fock.Fock(modes, binary={**b, **{k: occ for k in bos}}))
         self.cache = {}
 
     def act_word(self, letters):
@@ -88,6 +101,14 @@ class Denoter:
             cl += F.diff_clauses(a, b)
         return cl
 
+    def clauses_split(self, A, B):
+        """(clauses of the symbolic-occupation cases, clauses of the concrete boundary-occupation cases)."""
+        n_gen = self.n_symbolic
+        gen, bnd = [], []
+        for k, (F, a, b) in enumerate(zip(self.cases, A, B)):
+            (gen if k < n_gen else bnd).extend(F.diff_clauses(a, b))
+        return gen, bnd
+
     @staticmethod
     def add(A, B, sign=1):
         out = []
@@ -109,7 +130,8 @@ def _replay_factory(modes, lib_expr_fn, ref_letters_fn, desc):
 
     def replay(model):
         params = {k[2:]: float(v) for k, v in model.items() if k.startswith("p_")}
-        rep = fock.MatrixRep(modes, cutoff=9, params=params)
+        # boundary-occupation counterexamples live at occupations 0..4: keep those columns inside the compared window
+        rep = fock.MatrixRep(modes, cutoff=13 if desc.get("boundary") else 9, params=params)
         L = rep.matrix(lib_expr_fn())
         R = ref_letters_fn(rep)
         inside = rep.interior(margin=7)
@@ -133,7 +155,9 @@ def c08(cfg):
 
     rec = Rec("C08", cfg)
     modes, letters = alphabet(cfg["alphabet"])
-    den = Denoter(modes)
+    # alphabets whose coefficients are rational functions of N are also evaluated at the boundary occupations 0 and 1
+    # "bpow" (q ** N coefficients) cannot be denoted for a symbolic occupation: concrete occupations 0..3 only (declared)
+    den = Denoter(modes, boundary=(0, 1, 2, 3, 4), symbolic=False) if cfg["alphabet"] in ("bpow", "babs") else Denoter(modes, boundary=(0, 1) if cfg["alphabet"] in ("b1r",) else ())
     lengths = cfg["lengths"]
     words = [w for L in lengths for w in itertools.product(range(len(letters)), repeat=L)]
     ci, cn = cfg.get("chunk", (0, 1))
@@ -170,7 +194,7 @@ def c08(cfg):
                 rec.direct_violation(name, sig + f":raised-{type(e).__name__}", {"exception": f"{type(e).__name__}: {e}"[:300], "where": where})
             return
         lib_states = den.act_expr(lib.as_expr() if hasattr(lib, "as_expr") else lib)
-        cl = den.clauses(lib_states, ref_states)
+        cl, cl_boundary = den.clauses_split(lib_states, ref_states)
         n_obl += 1
         if sig in seen_sigs and cl:
             # one reproduced counterexample per signature is enough; later ones are still decided but not replayed
@@ -181,6 +205,15 @@ def c08(cfg):
             seen_sigs.add(sig)
         if v != "structural":
             rec.nontrivial = True
+        if v != "sat" and cl_boundary:
+            # the identity holds as rational functions of the occupation but fails AT a boundary occupation (vacuum / one quantum)
+            bsig = sig + ":only-at-boundary-occupation"
+            n_obl += 1
+            vb = rec.oblige_clauses(name + " [boson occupation 0 or 1]", cl_boundary, sig=bsig,
+                                    replay=(lambda m: (True, {"note": "same signature as an already replayed counterexample"})) if bsig in seen_sigs
+                                    else _replay_factory(modes, lambda: lib.as_expr(), ref_mat_fn, {"case": name, "boundary": True}), cross=False)
+            if vb == "sat":
+                seen_sigs.add(bsig)
 
     def sig_for(kind, left, right=None):
         def cls(idx):
@@ -215,6 +248,13 @@ def c08(cfg):
         if "adjoint" in checks:
             radj = den.act_word([Dagger(x) for x in reversed(lw)])
             oblige(f"Dagger({names(w)})", lambda w=w: Dagger(nof(w)), radj, sig_for("adjoint", w), lambda rep, lw=lw: _mat_word(rep, [Dagger(x) for x in reversed(lw)]))
+        if "scalar" in checks and len(w) <= 2:
+            # products with plain scalars in both operand orders (Python int / Fraction-like / sympy numbers), division by an integer
+            rw = den.act_word(lw)
+            for label, fn, fac in (("* 2", lambda x: x * 2, 2), ("2 *", lambda x: 2 * x, 2), ("* Rational(3,2)", lambda x: x * sympy.Rational(3, 2), sympy.Rational(3, 2)),
+                                   ("Rational(3,2) *", lambda x: sympy.Rational(3, 2) * x, sympy.Rational(3, 2)), ("/ 2", lambda x: x / 2, sympy.Rational(1, 2))):
+                ref = [{k: v * SymC(symc._rv(Fraction(int(sympy.numer(fac)), int(sympy.denom(fac))))) for k, v in st.items()} for st in rw]
+                oblige(f"({names(w)}) {label}", lambda w=w, fn=fn: fn(nof(w)), ref, sig_for("scalar", w), lambda rep, lw=lw, fac=fac: float(fac) * _mat_word(rep, lw))
         if "power" in checks and len(w) <= 2:
             for p in (2, 3):
                 oblige(f"({names(w)})**{p}", lambda w=w, p=p: nof(w) ** p, den.act_word(lw * p), sig_for(f"power{p}", w), lambda rep, lw=lw, p=p: _mat_word(rep, lw * p))
@@ -284,6 +324,10 @@ def configs(tier):
         add("mixed", [1, 2], 2, checks=full)
         add("mixed", [3], 6, checks=["split"])
         add("b1r", [1, 2, 3], 1, checks=full)
+        add("b1", [1, 2], 1, checks=["scalar"])
+        add("bpow", [1, 2, 3], 2, checks=["convert", "split"])
+        add("babs", [1, 2, 3], 1, checks=["convert", "split"])
+        add("bf", [1, 2], 1, checks=["scalar"])
         add("s2", [1, 2, 3], 2, checks=full)
         add("l2", [1, 2, 3], 2, checks=full)
         add("sf", [1, 2, 3], 3, checks=full)
